@@ -313,6 +313,29 @@ func extractC01(c *ctxT) {
 		}
 	}
 
+	// ---- EditBridger: the index entry of the OLD bridger is deleted (DelOracleAddrByBridgerAddr(ctx, oracle.GetBridger()))
+	// before the record's bridger is overwritten, and the new entry is set afterwards
+	editDelOldFirst := false
+	if fd := c.findFunc(c01Keeper, "MsgServer", "EditBridger"); fd != nil && fd.Body != nil {
+		delIdx, asgIdx, setIdx := -1, -1, -1
+		for i, st := range fd.Body.List {
+			switch x := st.(type) {
+			case *ast.ExprStmt:
+				switch c.src(x.X) {
+				case "s.DelOracleAddrByBridgerAddr(ctx, oracle.GetBridger())":
+					delIdx = i
+				case "s.SetOracleAddrByBridgerAddr(ctx, bridgerAddr, oracleAddr)":
+					setIdx = i
+				}
+			case *ast.AssignStmt:
+				if len(x.Lhs) == 1 && c.src(x.Lhs[0]) == "oracle.BridgerAddress" {
+					asgIdx = i
+				}
+			}
+		}
+		editDelOldFirst = delIdx >= 0 && asgIdx > delIdx && setIdx > delIdx
+	}
+
 	// ---- UnbondedOracle deletes the per-oracle last nonce
 	unbondDel := false
 	if fd := c.findFunc(c01Keeper, "MsgServer", "UnbondedOracle"); fd != nil && fd.Body != nil {
@@ -525,6 +548,7 @@ func extractC01(c *ctxT) {
 	w("Attest calls TryAttestation at all", "tallyCalled", "Bool", leanBool(tallyCalled))
 	w("GetLastEventNonceByOracle: absent key -> lastObserved-1 (0 if lastObserved = 0); exact body shape recognised", "fallbackLastObservedMinusOne", "Bool", leanBool(fallback))
 	w("checkBridgerIsOracle: `if !oracle.Online { return err }`", "claimRequiresOnline", "Bool", leanBool(online))
+	w("EditBridger deletes the bridger-index entry of the old bridger before overwriting the record's bridger", "editBridgerDeletesOldIndexFirst", "Bool", leanBool(editDelOldFirst))
 	w("UnbondedOracle calls DelLastEventNonceByOracle", "unbondDeletesLastNonce", "Bool", leanBool(unbondDel))
 	w("UnbondedOracle and the delegate address' staking unbonding delegation: error unless one exists / ErrInvalid while one exists", "unbondUbdRule", "UbdRule", "."+ubdRule)
 	w("TryAttestation adds exactly `oracle.GetPower()` of each found voter to the attestation power", "tallyAddsGetPower", "Bool", leanBool(tallyGetPower))
